@@ -285,6 +285,7 @@ def run(ck):
     r8_names_written_in_a_readable_form(ck, hdr)
     r9_quoted_form_is_read_back(ck)
     r10_kind_is_a_function_of_the_hunks(ck)
+    r11_hashes_of_an_index_line_stay_together(ck)
 
 
 def r6(ck, hw):
@@ -386,6 +387,37 @@ def r6(ck, hw):
         else:
             ck.violate(rule, "line marker is one of '+', '-', ' '", "marker byte %r" % mk, hw.where(t2))
     ck.floor(rule, "line writes in the hunk writer", n, 3)
+
+
+def r11_hashes_of_an_index_line_stay_together(ck, rule="C12-R11"):
+    """The written form has one word for both object names: the `index <old>..<new>` line, written when both are there.  So the parser
+    keeps them together: what it stores as the old and the new hash of a file patch are `Some` of the two names of one `index` line,
+    as they stand - one of them filtered away (the all-zero name of an absent side, say) leaves a lone hash the writer has no line
+    for, and the other one is lost in the written patch."""
+    prog = ck.prog
+    n = 0
+    sides = set()
+    for fn in sorted(prog.fns.values(), key=lambda f: f.id):
+        if fn.crate != "libpatch" or "unified::parser" not in fn.id:
+            continue
+        for bb, idx, st in fn.stmts():
+            if st["k"] != "assign" or "p" not in st["lhs"] or fn.blocks[bb]["cleanup"]:
+                continue
+            last = [p_ for p_ in st["lhs"]["p"] if isinstance(p_, dict)]
+            if not last or last[-1].get("name") not in ("old_hash", "new_hash") or not str(last[-1].get("adt") or "").endswith("FilePatchMetadata"):
+                continue
+            n += 1
+            e = df.rvalue_expr(fn, st["rv"])
+            alts = df.alternatives(fn, e) or [e]
+            good = all(isinstance(a, tuple) and a and a[0] == "agg" and str(a[1]).endswith("Option") and a[2] == "Some" and
+                       df.mentions(a, lambda x: isinstance(x, tuple) and x and x[0] == "downcast" and x[2] == "Index") for a in alts)
+            if good:
+                sides.add(last[-1]["name"])
+            ck.require(good, rule, "the %s of a file patch is the name the index line gives, as it stands" % last[-1]["name"].replace("_", " "),
+                       "the parser stores %s as %s: not simply Some(name from the index line) - when one side can end up None while the other "
+                       "is kept, the writer (which writes `index a..b` only when both are there) loses the remaining one" % (
+                           last[-1]["name"], df.show(e, 90)), fn.where(st), ok_detail=df.show(e, 70))
+    ck.floor(rule, "places where the parser stores an object name", n, 2)
 
 
 def r8_names_written_in_a_readable_form(ck, hdr):
